@@ -49,6 +49,8 @@ def render(c):
 
 def outputs(c):
     o1 = chars(c["o1"], MAP)
+    if c.get("volume") in ("bigout", "both"):
+        o1 = "y" * 100000 + "\n"
     if c["kind"] == "builtin":
         o1 = "alias zz='vq'\n"
     return o1, chars(c["o2"], MAP)
@@ -142,11 +144,24 @@ def runner(rep, tier, seed, replay):
         rep.add_tlc(r)
     if tier == "quick":
         cases = [c for c in cases if not (c["kind"] in ("builtin", "notfound", "invalid", "failing") and chars(c["o1"]) not in ("x", "a$1b"))]
+    # volume variants (spec/Pipeline.tla, capture branch: the inner command fills the stdout or the stderr capture pipe
+    # beyond one pipe buffer while the shell reads): derived from the simple whole-word cases
+    vol = []
+    for c in cases:
+        if c["kind"] == "simple" and not c["two"] and c["shape"] == "whole" and chars(c["o1"]) == "x":
+            vol.append(dict(c, kind="simple", volume="bigout"))
+            vol.append(dict(c, kind="simple", volume="bigerr"))
+            vol.append(dict(c, kind="simple", volume="both"))
+    cases += vol
     log("[C11] %d cases" % len(cases))
     jobs = []
     for c in cases:
         o1, o2 = outputs(c)
         vh = {"out.1": chars(c["o1"], MAP), "out.2": o2}
+        if c.get("volume") in ("bigout", "both"):
+            vh["out.1"] = "y" * 100000 + "\n"
+        if c.get("volume") in ("bigerr", "both"):
+            vh["err.1"] = "E" * 200000 + "\n"
         if c["kind"] == "failing":
             vh["st.1"] = "3"
         jobs.append({"entry": "c", "text": render(c), "vhfiles": vh, "timeout": 5, "want_files": False})
